@@ -201,3 +201,20 @@ func VH_C17_kinds() {
 	eq, err = Equal(c.ToPtr(), c2.ToPtr())
 	vAssert(err == nil && eq == (c.cap == c2.cap), "C17.cap.same-message-by-index")
 }
+
+// capabilities in different messages: equal exactly when they are the same capability
+func VH_C17_cap_cross_message() {
+	ma, sa := vNewMsg()
+	mb, sb := vNewMsg()
+	alice, bob := NewClient(&vHook{}), NewClient(&vHook{})
+	ma.CapTable = []*Client{alice, bob}
+	mb.CapTable = []*Client{bob, alice}
+	i := CapabilityID(vConc(int(vNondetU8()), 2))
+	j := CapabilityID(vConc(int(vNondetU8()), 2))
+	eq, err := Equal(NewInterface(sa, i).ToPtr(), NewInterface(sb, j).ToPtr())
+	eq2, err2 := Equal(NewInterface(sb, j).ToPtr(), NewInterface(sa, i).ToPtr())
+	vReach("returned")
+	vAssert(err == nil && err2 == nil && eq == eq2, "C17.capx.symmetric")
+	vAssert(eq == (ma.CapTable[i] == mb.CapTable[j]), "C17.capx.by-identity-not-by-index")
+	vAssert(vLocksHeld() == 0, "C17.capx.no-lock-held")
+}
